@@ -25,6 +25,7 @@ var Registry = map[string]func(*Ctx){
 	"C15": C15,
 	"C16": C16,
 	"C17": C17,
+	"C18": C18,
 	"C19": C19,
 	"C20": C20,
 }
